@@ -71,6 +71,17 @@ CLAIMED = {
                      "tuple order, trichotomy, hash category vs the stdlib dataclass built with the same options, eq => equal hash, frozen "
                      "enforcement, copy/deepcopy/replace preserving value and set-field record, repr.",
                 design_ref="DESIGN.md 5/C16", technique="symbolic execution (CrossHair+z3), stdlib dataclass and tuple order as reference"),
+    'C17': dict(text="Class hierarchies are generated from descriptors and compared with a reference merge (order, keyword-only placement, "
+                     "signature, repr, positional binding); for 16 generic instantiations the substituted field types are checked "
+                     "structurally AND enforced: a symbolic value is placed by the solver in any field (directly or inside List/Dict/"
+                     "Optional) and acceptance must equal membership in the substituted type; inherited class options are probed on "
+                     "subclasses 1-2 levels down and behind a mixin.",
+                design_ref="DESIGN.md 5/C17", technique="symbolic execution (CrossHair+z3) vs reference merge and substituted-type membership"),
+    'C18': dict(text="Every source of a custom converter for int installs a marking converter, so the result names the winner; the sources "
+                     "present (16 class families), the call-level form (7) and the nesting are chosen by the solver and every int at every "
+                     "depth must carry the mark of the highest-priority present source in both directions; exact-type matching of "
+                     "mapping-form handlers, NotImplemented deferral and the place of registered global handlers are checked the same way.",
+                design_ref="DESIGN.md 5/C18", technique="symbolic execution (CrossHair+z3) vs the documented total order"),
 }
 
 NA = {
